@@ -1,4 +1,8 @@
-use std::{cell::Cell, marker::PhantomData, ptr::NonNull};
+use std::{
+    cell::{Cell, RefCell},
+    marker::PhantomData,
+    ptr::NonNull,
+};
 
 mod cell;
 use self::cell::RecorderOnceCell;
@@ -21,6 +25,14 @@ static GLOBAL_RECORDER: RecorderOnceCell = RecorderOnceCell::new();
 
 thread_local! {
     static LOCAL_RECORDER: Cell<Option<NonNull<dyn Recorder>>> = Cell::new(None);
+
+    /// All local recorders currently installed on this thread, innermost last, along with the ID of the guard that
+    /// installed each, and the ID to hand to the next guard.
+    ///
+    /// `LOCAL_RECORDER` always mirrors the innermost entry. Tracking every live installation, rather than having each
+    /// guard remember its predecessor, means that guards can be dropped in any order without a recorder whose guard
+    /// is already gone ever being reinstated.
+    static LOCAL_RECORDER_STACK: RefCell<(u64, Vec<(u64, NonNull<dyn Recorder>)>)> = RefCell::new((0, Vec::new()));
 }
 
 /// A trait for registering and recording metrics.
@@ -138,7 +150,7 @@ impl_recorder!(T, std::sync::Arc<T>);
 /// contravariance, it must live _at most as long_ as the recorder it takes a reference to. The bounded lifetime
 /// prevents accidental use-after-free errors when using a guard directly through [`crate::set_default_local_recorder`].
 pub struct LocalRecorderGuard<'a> {
-    prev_recorder: Option<NonNull<dyn Recorder>>,
+    id: u64,
     phantom: PhantomData<&'a dyn Recorder>,
 }
 
@@ -158,17 +170,31 @@ impl<'a> LocalRecorderGuard<'a> {
         // itself -- and so derived references never outlive the source reference.
         let recorder_ptr = unsafe { NonNull::new_unchecked(recorder_ptr) };
 
-        let prev_recorder =
-            LOCAL_RECORDER.with(|local_recorder| local_recorder.replace(Some(recorder_ptr)));
+        let id = LOCAL_RECORDER_STACK.with(|stack| {
+            let mut stack = stack.borrow_mut();
+            stack.0 += 1;
+            let id = stack.0;
+            stack.1.push((id, recorder_ptr));
+            id
+        });
+        LOCAL_RECORDER.with(|local_recorder| local_recorder.set(Some(recorder_ptr)));
 
-        Self { prev_recorder, phantom: PhantomData }
+        Self { id, phantom: PhantomData }
     }
 }
 
 impl<'a> Drop for LocalRecorderGuard<'a> {
     fn drop(&mut self) {
-        // Clear the thread-local recorder.
-        LOCAL_RECORDER.with(|local_recorder| local_recorder.replace(self.prev_recorder.take()));
+        // Remove our own installation, wherever it is in the stack, and make the innermost remaining one (if any)
+        // the thread-local recorder.
+        let innermost = LOCAL_RECORDER_STACK.with(|stack| {
+            let mut stack = stack.borrow_mut();
+            if let Some(pos) = stack.1.iter().rposition(|(id, _)| *id == self.id) {
+                stack.1.remove(pos);
+            }
+            stack.1.last().map(|(_, recorder_ptr)| *recorder_ptr)
+        });
+        LOCAL_RECORDER.with(|local_recorder| local_recorder.set(innermost));
     }
 }
 
